@@ -587,6 +587,12 @@ class Enumerator:
                                          'keys', 'values', 'items'):
                         return None
                     continue
+            if e.kind == 'store' and isinstance(e.node, ast.Subscript) and \
+                    isinstance(e.node.value, ast.Name) and \
+                    e.node.value.id == prim.id and not isinstance(
+                        e.node.slice, ast.Slice):
+                grown = True
+                continue
             if e.kind != 'call' and any(
                     isinstance(n, ast.Name) and n.id == prim.id
                     for n in ast.walk(e.node)):
@@ -807,7 +813,7 @@ class Enumerator:
                     yield s, ast.Constant(value=(t != neg)), None
             return
         if self.comps and isinstance(v, (ast.ListComp, ast.GeneratorExp,
-                                         ast.SetComp)) and len(
+                                         ast.SetComp, ast.DictComp)) and len(
                 v.generators) == 1 and not v.generators[0].is_async:
             yield from self._eval_comp(v, st, handlers, value)
             return
@@ -880,11 +886,16 @@ class Enumerator:
         line = getattr(value, 'lineno', 0)
         g = v.generators[0]
         acc = self.fresh(v, 'm')
-        app = ast.Expr(value=ast.Call(
-            func=ast.Attribute(value=ast.Name(id=acc.id, ctx=ast.Load()),
-                               attr='add' if isinstance(v, ast.SetComp)
-                               else 'append', ctx=ast.Load()),
-            args=[v.elt], keywords=[]))
+        if isinstance(v, ast.DictComp):
+            app = ast.Assign(targets=[ast.Subscript(
+                value=ast.Name(id=acc.id, ctx=ast.Load()), slice=v.key,
+                ctx=ast.Store())], value=v.value)
+        else:
+            app = ast.Expr(value=ast.Call(
+                func=ast.Attribute(value=ast.Name(id=acc.id, ctx=ast.Load()),
+                                   attr='add' if isinstance(v, ast.SetComp)
+                                   else 'append', ctx=ast.Load()),
+                args=[v.elt], keywords=[]))
         body = [app]
         for c in reversed(g.ifs):
             body = [ast.If(test=c, body=body, orelse=[])]
